@@ -515,17 +515,13 @@ theorem removeDbApiKey_unbinds (s s' : State) (n : String) (b : Bool)
   unfold removeDbApiKey at h
   split at h
   · cases h
-  · split at h
-    · rename_i hl
+  · dsimp only at h
+    split at h
+    · rename_i hok
       cases h
-      exact hl
-    · dsimp only at h
-      split at h
-      · rename_i hok
-        cases h
-        rw [((storeApiKey_fields s n none).1 hok).1]
-        exact lookup_eraseKey_self _ _
-      · cases h
+      rw [((storeApiKey_fields s n none).1 hok).1]
+      exact lookup_eraseKey_self _ _
+    · cases h
 
 /-! ## persistence failures roll back -/
 
@@ -1020,22 +1016,20 @@ theorem setDbApiKey_ack (cfg : Cfg) (s s' : State) (n : String) (k : Option Stri
         exact ⟨rfl, lookup_setKey_self _ _ _⟩
       · cases h
 
-theorem removeDbApiKey_ack (s s' : State) (n : String)
-    (h : removeDbApiKey s n = (s', .ok (.removed true))) :
+theorem removeDbApiKey_ack (s s' : State) (n : String) (b : Bool)
+    (h : removeDbApiKey s n = (s', .ok (.removed b))) :
     s'.durableBound = s'.bound ∧ lookup s'.bound n = none := by
   unfold removeDbApiKey at h
   split at h
   · cases h
-  · split at h
+  · dsimp only at h
+    split at h
+    · rename_i hok
+      cases h
+      obtain ⟨hb, hd, _⟩ := (storeApiKey_fields s n none).1 hok
+      rw [hb, hd]
+      exact ⟨rfl, lookup_eraseKey_self _ _⟩
     · cases h
-    · dsimp only at h
-      split at h
-      · rename_i hok
-        cases h
-        obtain ⟨hb, hd, _⟩ := (storeApiKey_fields s n none).1 hok
-        rw [hb, hd]
-        exact ⟨rfl, lookup_eraseKey_self _ _⟩
-      · cases h
 
 theorem registerDb_result (cfg : Cfg) (s : State) (mode : OpenMode) (n : String) (k : Option String) (res : RootResult)
     (h : (registerDb cfg s mode n k).2 = .ok res) : res = .metadata n := by
@@ -1067,16 +1061,16 @@ theorem setDbApiKey_result (cfg : Cfg) (s : State) (n : String) (k : Option Stri
 leaves the durable key map equal to the enforced one -/
 theorem rootHandler_ack (cfg : Cfg) (s s' : State) (hd : String) (p : RootParams) (f : String) (res : RootResult)
     (h : rootHandler cfg s hd p f = (s', .ok res))
-    (hres : (∃ n g, res = .keySet n g) ∨ res = .removed true) : s'.durableBound = s'.bound := by
+    (hres : (∃ n g, res = .keySet n g) ∨ (∃ b, res = .removed b)) : s'.durableBound = s'.bound := by
   have bad_meta : ∀ n, res ≠ .metadata n := by
-    intro n e; rcases hres with ⟨_, _, e'⟩ | e' <;> rw [e'] at e <;> cases e
+    intro n e; rcases hres with ⟨_, _, e'⟩ | ⟨_, e'⟩ <;> rw [e'] at e <;> cases e
   have bad_unit : res ≠ .unit := by
-    intro e; rcases hres with ⟨_, _, e'⟩ | e' <;> rw [e'] at e <;> cases e
+    intro e; rcases hres with ⟨_, _, e'⟩ | ⟨_, e'⟩ <;> rw [e'] at e <;> cases e
   unfold rootHandler at h
   split at h
-  · cases h; rcases hres with ⟨_, _, e'⟩ | e' <;> cases e'
+  · cases h; rcases hres with ⟨_, _, e'⟩ | ⟨_, e'⟩ <;> cases e'
   · split at h
-    · cases h; rcases hres with ⟨_, _, e'⟩ | e' <;> cases e'
+    · cases h; rcases hres with ⟨_, _, e'⟩ | ⟨_, e'⟩ <;> cases e'
     · cases hn : p.name with
       | none =>
         simp only [hn] at h
@@ -1095,11 +1089,11 @@ theorem rootHandler_ack (cfg : Cfg) (s s' : State) (hd : String) (p : RootParams
               · split at h
                 · exact (setDbApiKey_ack _ _ _ _ _ _ _ h).1
                 · split at h
-                  · rcases hres with ⟨n', g, e'⟩ | e'
+                  · rcases hres with ⟨n', g, e'⟩ | ⟨b, e'⟩
                     · obtain ⟨b, eb⟩ := removeDbApiKey_result _ _ _ (congrArg Prod.snd h)
                       rw [e'] at eb; cases eb
                     · rw [e'] at h
-                      exact (removeDbApiKey_ack _ _ _ h).1
+                      exact (removeDbApiKey_ack _ _ _ _ h).1
                   · cases h
 
 /-! ## routing -/
